@@ -313,7 +313,20 @@ def trace_validate(ctx, event_files, cap=40000, chunk=4000, par=8, reset_between
         lines = [lines[int(i * step)] for i in range(cap)]
     if not lines:
         return {"events": 0, "rejections": [], "totals": {}}
-    chunks = [("%s_trace_%d" % (ctx.prop, i // chunk), lines[i:i + chunk]) for i in range(0, len(lines), chunk)]
+    if ctx.prop == "C16":
+        # purity relates later events to the isolated ones of the same process: one trace per recorded file, not split
+        chunks, cur = [], []
+        for l in lines:
+            if l.startswith('{"ev":"Reset"}'):
+                if cur:
+                    chunks.append(("%s_trace_%d" % (ctx.prop, len(chunks)), cur))
+                cur = []
+            else:
+                cur.append(l)
+        if cur:
+            chunks.append(("%s_trace_%d" % (ctx.prop, len(chunks)), cur))
+    else:
+        chunks = [("%s_trace_%d" % (ctx.prop, i // chunk), lines[i:i + chunk]) for i in range(0, len(lines), chunk)]
     t0 = time.time()
     res = []
     with cf.ThreadPoolExecutor(max_workers=par) as ex:
@@ -326,6 +339,8 @@ def trace_validate(ctx, event_files, cap=40000, chunk=4000, par=8, reset_between
         for rj in r["rejections"]:
             ev, dg = rj["event"], rj["diag"]
             failed = [k for k in ("claim", "status", "ticks", "value", "pure") if dg.get(k) is False]
+            if dg.get("failed") in ("claim", "status", "ticks", "value", "pure"):
+                failed = [dg["failed"]]
             if "claim" in failed:
                 raise ToolError("harness rendering does not lex to the claimed token kinds: %s -> %s" % (ev.get("chars"), dg.get("kinds")))
             cat = "trace_" + (failed[0] if failed else "unknown")
@@ -488,7 +503,22 @@ def c02(ctx):
                   extra={"invariants_checked": ["Loops!Bounded", "Loops!CapIndependent", "Loops!Terminates (liveness, WF)", "StepsAgree", "StepsLinear", "EvalLinear", "Progress", "TokenCount"],
                          "exhaustive": True}, spec_viol=sv)
 
-CHECKS = {"C02": c02, "C11": c11, "C06": c06, "C09": c09, "C01": c01, "C03": c03, "C04": c04, "C12": c12, "C13": c13, "C14": c14, "C20": c20}
+def c16(ctx):
+    q = ctx.quick()
+    cfg = ("CONSTANTS MaxCalls = %d\nThreads <- MCThreads\nKeys <- MCKeys\nSPECIFICATION CSpec\nINVARIANT Pure\nPROPERTY AppendOnly\nCONSTRAINT Bound\nCHECK_DEADLOCK FALSE\n" % (2 if q else 3))
+    r = vlib.tlc("MCCalc", cfg, "C16_calc", workers=8, timeout=3 * 3600)
+    vlib.tlc_ok(r, "MCCalc")
+    log("TLC MCCalc: %d states, %d distinct, %.0fs%s" % (r["states"], r["distinct"], r["wall_s"], (" VIOLATED " + str(r["violated"])) if r["violated"] else ""))
+    def jobs(profile):
+        return [base_job(ctx, "history", "%s_hist" % profile, profile, n_seq=3000 if q else 100000, n_par=16000 if q else 400000, threads=16, event_cap=6000 if q else 30000, seed=ctx.seed)]
+    f, s = run_jobs(ctx, jobs)
+    sv = [("MCCalc", r["violated"], r["log"])] if r["violated"] else []
+    # the trace of one process must be validated in one piece (PureOK relates events to the isolated ones): no Reset between files, one chunk per file
+    return finish(ctx, {"impure", "trace_pure"}, [r], f, s,
+                  "a seeded pool of ~500 keys (five evaluators; Ok, Err and rejected inputs; the same expression with different placeholders incl. +0.0/-0.0, NaN, extremes) evaluated once each in a fresh process, then in a random sequential history and on 16 threads concurrently (every third call repeats the previous expression with another placeholder); every outcome must be bit-identical to the isolated one; CalcTrace!PureOK re-checks it on the recorded trace; non-trivial = distinct keys",
+                  extra={"invariants_checked": ["Calc!Pure", "Calc!AppendOnly"]}, spec_viol=sv)
+
+CHECKS = {"C16": c16, "C02": c02, "C11": c11, "C06": c06, "C09": c09, "C01": c01, "C03": c03, "C04": c04, "C12": c12, "C13": c13, "C14": c14, "C20": c20}
 
 def replay(prop, path):
     f = json.load(open(path))
